@@ -11,6 +11,7 @@ import (
 	"net/url"
 	"os"
 	"runtime"
+	"strings"
 	"sync"
 )
 
@@ -21,7 +22,13 @@ func init() {
 }
 
 func vfReq(host, path string, useTLS bool) *http.Request {
-	r := &http.Request{Host: host, URL: &url.URL{Path: path}, Header: http.Header{}, RemoteAddr: "1.2.3.4:5555"}
+	u := &url.URL{Path: path}
+	// a path may be given as "decoded|raw": the request target the client sent (raw)
+	// and what net/http decodes it to
+	if i := strings.Index(path, "|"); i >= 0 {
+		u = &url.URL{Path: path[:i], RawPath: path[i+1:]}
+	}
+	r := &http.Request{Host: host, URL: u, Header: http.Header{}, RemoteAddr: "1.2.3.4:5555"}
 	if useTLS {
 		r.TLS = &tls.ConnectionState{}
 	}
